@@ -333,6 +333,29 @@ func dischargeAll(jobs []solveJob, workDir string, quickS, fullS int, all bool, 
 			os.Remove(files[i])
 		}
 	})
+	// phase C: a handful of obligations left undecided may be victims of a loaded machine rather than of the code: they get one more, much
+	// longer attempt (many undecided obligations are a real failure and are not retried, so a failing tree stays quick to report)
+	var undecided []int
+	for _, i := range pending {
+		if jobs[i].o.Status == "unknown" {
+			undecided = append(undecided, i)
+		}
+	}
+	if n := len(undecided); n > 0 && n <= 6 && !all {
+		runPool(n, 2, func(k int) {
+			i := undecided[k]
+			o := jobs[i].o
+			r, tried := raceAll(files[i], 4*fullS, false)
+			recordResult(o, r, tried, 4*fullS)
+			if o.Status == "failed" {
+				o.Model = getModel(files[i], r.backend)
+			}
+			if o.Status == "proved" {
+				o.Unstable = true
+				os.Remove(files[i])
+			}
+		})
+	}
 }
 
 func runPool(n, workers int, f func(i int)) {
